@@ -12,6 +12,15 @@ NOTES = ("All checks: bin/check <ID> --tier quick|thorough; VERIF_SEED seeds con
 _TLC = "explicit TLA+ spec + TLC: exhaustive design check, TLC-generated cases replayed into the Go code, recorded traces judged by a TLC trace module"
 
 CHECKS = {
+    "C15": {
+        "level": "model_checking",
+        "text": "TypeRef.tla defines reference trees, their printer, a character-level parser with a bracket depth counter, the path/name split point and the "
+                "import-name rewrite; TLC checks Parse(Print(t)) = t, Print(Parse(s)) = s and the split point for every tree within bounds (Loop A), every tree is "
+                "replayed into ParseTypeRef/String, ParseRef/Ref, PkgImportPathAndExpose and snippet.ID through a raw namer (Loop B) and TypeRefTrace.tla "
+                "judges parse result, printed string, split agreement, rewritten text and registered import set (Loop C).",
+        "note": "Exhaustive for all trees within (depth,width,leaf set) bounds incl. depth 4-5 over one leaf; random trees beyond. Which import name is chosen is bound from the log, not prescribed.",
+        "technique": _TLC,
+    },
     "C19": {
         "level": "model_checking",
         "text": "CamelCase.tla models Split as a rune-class scanner with an explicit PANIC outcome; TLC proves it total, lossless and free of empty "
